@@ -223,7 +223,11 @@ func c18Run(c core.Case) *core.Result {
 			fa = &failAt{r: bytes.NewReader(in.bytes), at: in.offs[failRec]}
 			src = fa
 		}
-		br, err := bam.NewReader(src, 1)
+		rd := 1
+		if i != failInput && c.Seed%3 == 0 {
+			rd = 2 // read-ahead on the clean inputs (the failing one must fail exactly at record n)
+		}
+		br, err := bam.NewReader(src, rd)
 		if err != nil {
 			r.Violate("harness|input", "%s: cannot open input %d: %v", cfg, i, err)
 			return r
